@@ -25,6 +25,10 @@ for pid in ALL:
         na.append({"property_id": pid, "reason": c.get("na_reason", "check withdrawn")})
     else:
         na.append({"property_id": pid, "reason": "not yet claimed: the Coq model, theorems and correspondence harness for this property are not built yet (work in progress, see DESIGN.md section 6); the technique applies"})
+kf = []
+for f in sorted(glob.glob(os.path.join(ROOT, "known_findings.d", "*.json"))):
+    kf += json.load(open(f))
+json.dump(kf, open(os.path.join(ROOT, "known_findings.json"), "w"), indent=1)
 man = {
     "version": 1,
     "setup_cmd": "./setup.sh",
